@@ -29,7 +29,7 @@ Step(sch, inp, cfg, m, e) ==
     ELSE LET top == m.open[Len(m.open)] IN
       IF top.id # e.id THEN Fail(m, "C06: End does not match the most recent unmatched Start (or implied ancestor)")
       \* a known-size master ends exactly when its byte range is exhausted (or the input ends)
-      ELSE IF top.end >= 0 /\ m.cur # top.end /\ m.cur < Len(inp) THEN Fail(m, "C06: End of a known-size master emitted before its range was exhausted")
+      ELSE IF top.end >= 0 /\ m.cur # top.end /\ m.cur < Len(inp) THEN Fail(m, "C06: End of a known-size master not emitted exactly when its range was exhausted")
       ELSE [m EXCEPT !.open = SubSeq(@, 1, Len(@) - 1)]
   ELSE IF e.kind = "raw" \/ ~KnownId(sch, e.id) THEN Fail(m, "C06: strict mode emitted an element whose id is not in the specification")
   ELSE
@@ -43,7 +43,7 @@ Step(sch, inp, cfg, m, e) ==
     IF h.t # "ok" THEN Fail(m, "C06: no complete tag header at the item's offset")
     ELSE IF \E x \in KnownEnds(open1) : e.off >= x THEN Fail(m, "C06: item emitted after an enclosing known-size master was exhausted but before its End")
     ELSE IF doc1 /\ ~PathAllows(sch, e.id, Ids(open1)) THEN Fail(m, "C06: element is not under the chain of open masters its declared path allows")
-    ELSE IF ~h.unk /\ \E x \in KnownEnds(open1) : e.off + h.hlen + h.size > x THEN Fail(m, "C06: element overruns an enclosing known-size master")
+    ELSE IF \E x \in KnownEnds(open1) : e.off + h.hlen + (IF h.unk THEN 0 ELSE h.size) > x THEN Fail(m, "C06: element overruns an enclosing known-size master")
     ELSE IF e.kind = "start" THEN
       [m EXCEPT !.open = Append(open1, [id |-> e.id, end |-> IF h.unk THEN -1 ELSE e.off + h.hlen + h.size]),
                 !.doc = doc1, !.cur = e.off + h.hlen]
